@@ -137,8 +137,11 @@ def first_order_match(pat, t, inst=None):
                     heuristic_match = True
 
                 if heuristic_match:
-                    # Heuristic matching: just assign pat.fun to t.fun.
-                    if t.is_comb():
+                    # Heuristic matching: just assign pat.fun to t.fun. This is
+                    # only meaningful when pat.fun is the head variable itself, and
+                    # t.fun must not contain bound variables.
+                    if t.is_comb() and pat.fun.is_svar() and \
+                       not (bd_vars and t.fun.has_vars(bd_vars)):
                         try:
                             pat.head.T.match_incr(t.fun.get_type(), inst.tyinst)
                         except TypeMatchException:
